@@ -70,6 +70,11 @@ func runC03(c *Ctx) {
 									c.Sum.GoFindings = append(c.Sum.GoFindings, Finding{Signature: "C03/provider-visited-again",
 										What: fmt.Sprintf("the browser was sent to the provider %d times", s.AuthCount), Replay: s.descr(nil)})
 								}
+								if len(w.LateMutations) > 0 {
+									c.Sum.GoFindings = append(c.Sum.GoFindings, Finding{Signature: "C03/answer-changed-after-it-was-returned",
+										What: "an answer already returned by a check changed while a later check was processed (responses share mutable state): " + w.LateMutations[0],
+										Replay: s.descr(map[string]any{"late_mutations": w.LateMutations})})
+								}
 								cases = append(cases, s.galHist())
 								d := s.descr(map[string]any{"behaviour": b.label(), "first_url": u})
 								descr = append(descr, d)
